@@ -58,6 +58,315 @@ add("a4_nvs_full_d2", "msgpack",
 
 
 # ---------------------------------------------------------------------------------------------
+# Family B - YAML re-encoder
+# ---------------------------------------------------------------------------------------------
+B_FUN = ["yaml::encoding::Encoding::detect", "yaml::encoding::Utf16Decoder::next", "yaml::encoding::Utf16Decoder::next_u16",
+         "yaml::encoding::Utf32Decoder::next", "yaml::encoding::Utf8Encoder::read", "yaml::encoding::Utf8Encoder::next_char",
+         "yaml::encoding::ArrayBuffer", "yaml::encoding::Encoder::new", "yaml::encoding::Encoder::from_reader", "yaml::encoding::Endianness"]
+B_SRC = ["harness reader Chunky: fill_buf hands out a fresh non-deterministic window >= 1 byte whenever the previous one is consumed "
+         "(models every short-read pattern of a BufRead source); from a symbolic offset on it fails forever (fault variants)",
+         "io::Error values are mem::forget-ten (their drop glue is outside CBMC's reach); error *kinds*/texts are not inspected"]
+
+B_COPY = ["std::io::copy is replaced (#[kani::stub]) by its documented contract: read with arbitrary buffer sizes 1..8 until Ok(0), write_all each piece, "
+          "first error returned (std's implementation initialises an 8 KiB stack buffer, i.e. needs unwind 8192)"]
+add("b1_detect_table", "yaml::encoding", desc="Encoding::detect equals the YAML 1.2.2 section 5.2 table for every prefix",
+    bounds="every prefix of 0..6 bytes, all byte values", functions=B_FUN[:1],
+    covers=["B1 utf32le without BOM", "B1 utf16be from a three byte prefix", "B1 one byte is utf8"],
+    props=["C07", "C04", "C02"], timeout=240, mem_gb=6)
+add("b2_utf16_next", "yaml::encoding",
+    desc="Utf16Decoder::next equals the reference decoder (Unicode D91): BMP unit, well-formed pair, lone trail, lead+non-trail (unit kept and re-examined), lead at EOF; every produced char is a scalar value (discharges both from_u32_unchecked sites)",
+    bounds="two code units, all 2^32 value pairs; both byte orders; 0..4 bytes present; every windowing of the source",
+    functions=B_FUN[1:3], covers=["B2 surrogate pair above plane 1", "B2 lone trail surrogate", "B2 lead followed by non-trail", "B2 lead at end of input"],
+    props=["C07", "C04", "C17"], timeout=600, mem_gb=10, assumptions=B_SRC)
+add("b2_utf16_next_fault", "yaml::encoding",
+    desc="B2 with a source that fails from a symbolic offset: a fault is Some(Err), never a fabricated char and never a clean end",
+    bounds="as B2; fault offset any 0..=len", functions=B_FUN[1:3], covers=["B2 reader fault reached"],
+    props=["C12", "C07"], timeout=600, mem_gb=10, assumptions=B_SRC)
+add("b2_utf16_truncated_unit", "yaml::encoding", desc="an odd trailing byte (1 or 3 bytes) is an error after the complete units",
+    bounds="3 symbolic bytes, both byte orders", functions=B_FUN[1:3], covers=["B2 truncated second unit"],
+    props=["C07", "C04"], timeout=300, mem_gb=8, assumptions=B_SRC)
+add("b3_utf32_next", "yaml::encoding",
+    desc="Utf32Decoder::next: Ok(c) iff 4 bytes present and the value is a scalar (<= 0x10FFFF, not D800-DFFF) and c equals it; 1-3 bytes -> Err; 0 bytes -> None",
+    bounds="one code unit, all 2^32 values; both byte orders; 0..4 bytes present; every windowing", functions=B_FUN[3:4],
+    covers=["B3 supplementary scalar", "B3 value above U+10FFFF", "B3 surrogate value", "B3 truncated unit"],
+    props=["C07", "C04", "C17"], timeout=300, mem_gb=8, assumptions=B_SRC)
+add("b3_utf32_next_fault", "yaml::encoding", desc="B3 with a failing source: fault -> Some(Err)", bounds="as B3; fault offset any 0..=len",
+    functions=B_FUN[3:4], covers=["B3 reader fault reached"], props=["C12", "C07"], timeout=300, mem_gb=8, assumptions=B_SRC)
+B4_ASM = B_SRC + ["inductive step: the pre-state is ANY Utf8Encoder state with a valid remainder (pos <= len <= 4, non-empty only after start); "
+                  "the pending characters are arbitrary chars from a mock iterator, so the step covers streams of any length and any sequence of caller buffer sizes"]
+add("b4_utf8_step_quick", "yaml::encoding",
+    desc="one Utf8Encoder::read from an arbitrary state: returns min(want, pending) bytes, they are the next bytes of the reference UTF-8 stream (BOM skipped iff first), post-state encodes exactly the rest; remainder indices in range",
+    bounds="2 pending chars (all scalar values), remainder any 0..4 bytes, caller buffer 0..5", functions=B_FUN[4:7],
+    covers=["B4 char split across two reads", "B4 leading BOM skipped"],
+    props=["C07", "C04", "C02"], timeout=900, mem_gb=12, assumptions=B4_ASM)
+add("b4_utf8_step_err_quick", "yaml::encoding",
+    desc="B4 with an Err item at a symbolic position of the character source: read returns Err exactly when the item is reached, never a short Ok",
+    bounds="as b4_utf8_step_quick; error position any 0..=n", functions=B_FUN[4:7], covers=["B4 source error surfaces as Err"],
+    props=["C12", "C07"], timeout=900, mem_gb=12, assumptions=B4_ASM)
+add("b4_utf8_step_full", "yaml::encoding", desc="B4 with 3 pending chars and caller buffer 0..9 (covers the direct-encode loop for buffers >= 4 twice)",
+    bounds="3 pending chars, remainder any, caller buffer 0..9", functions=B_FUN[4:7], covers=["B4 char split across two reads"],
+    tier="thorough", props=["C07", "C04", "C02"], timeout=3000, mem_gb=20, assumptions=B4_ASM)
+add("b5_encoder_utf16", "yaml::encoding",
+    desc="Encoder::new(UTF-16) end to end through the real type wiring: output = reference UTF-8 of the decoded scalars, one leading BOM stripped, ill-formed -> Err",
+    bounds="0..4 source bytes (2 units), both byte orders, every source windowing, caller buffers 1..5, <= 8 reads", functions=B_FUN,
+    covers=["B5 surrogate pair through the composed encoder", "B5 lone BOM yields empty text"],
+    props=["C07", "C02"], timeout=1500, mem_gb=16, assumptions=B_SRC)
+add("b5_encoder_utf32", "yaml::encoding", desc="Encoder::new(UTF-32) end to end, two units",
+    bounds="0..8 source bytes, both byte orders, every windowing, caller buffers 1..5, <= 10 reads", functions=B_FUN,
+    covers=["B5 two supplementary chars"], tier="thorough", props=["C07", "C02"], timeout=3000, mem_gb=20, assumptions=B_SRC)
+add("b6_from_reader_prefix", "yaml::encoding",
+    desc="Encoder::from_reader: for every windowing of the source the encoding is decided by the first min(4,len) bytes (reference table) and the peeked bytes are chained back: output = reference transcoding of the whole input",
+    bounds="0..5 source bytes, all values, every windowing (incl. 1-byte first reads)", functions=B_FUN,
+    covers=["B6 utf16le text detected and re-encoded", "B6 utf8 passthrough keeps the peeked bytes", "B6 utf32le detected"],
+    props=["C07", "C02", "C09"], timeout=1500, mem_gb=16, assumptions=B_SRC + B_COPY, replay="none")
+add("b6_from_reader_prefix_8", "yaml::encoding", desc="B6 with 0..8 source bytes", bounds="0..8 source bytes", functions=B_FUN,
+    covers=["B6 utf32le detected"], tier="thorough", props=["C07", "C02"], timeout=3000, mem_gb=20, assumptions=B_SRC + B_COPY, replay="none")
+
+
+# ---------------------------------------------------------------------------------------------
+# Family C - rewindable input
+# ---------------------------------------------------------------------------------------------
+C_FUN = ["input::CaptureReader::read", "input::CaptureReader::rewind", "input::CaptureReader::captured_unread_size",
+         "input::CaptureReader::capture_up_to_size", "input::CaptureReader::capture_to_end", "input::CaptureReader::into_inner",
+         "input::GuardedCaptureReader", "input::FusedReader::read", "input::Handle::borrow_mut", "input::Ref::prefix",
+         "input::Input::from(Handle)", "Cow::try_from(Handle)"]
+C_SRC = ["harness source Src: every read() delivers a fresh non-deterministic 1..=min(rest, buf) bytes, 0 at the end; from a symbolic offset on "
+         "it fails forever (fault variants) - i.e. every short-read schedule of an honest reader",
+         "inductive step: the pre-state is ANY CaptureReader state satisfying the representation invariant (captured = data[..c], "
+         "replay position p <= c, EOF flag => c == len, source positioned at c), constructed directly; one operation re-establishes it, "
+         "so programs of any length are covered",
+         "io::Error values are mem::forget-ten"]
+C_RTE = ["std::io::default_read_to_end is replaced (#[kani::stub]) by its documented contract: read until Ok(0) with arbitrary buffer sizes 1..4, "
+         "append to the vector, return the first error (std's adaptive implementation runs CBMC out of memory, DESIGN.md section 3)"]
+
+add("c2_capture_read_step", "input",
+    desc="CaptureReader::read from an arbitrary valid state: returns the next bytes of the ORIGINAL stream after the replay position, replays from the capture without touching the source, Ok(0) only at the end, EOF flag only when the source returned 0; invariant re-established",
+    bounds="data <= 3 B (all values), any captured length / replay position / EOF flag, caller buffer 0..3, every short-read choice of the source",
+    functions=C_FUN[:3], covers=["C2 read spans capture and source", "C2 read observes end of source"],
+    props=["C09", "C02", "C04"], timeout=600, mem_gb=10, assumptions=C_SRC)
+add("c4_capture_read_step_fault", "input",
+    desc="C2 with a source failing from a symbolic offset: the fault surfaces as Err from the read that hit it, nothing but genuine bytes is captured, EOF is not claimed",
+    bounds="as C2; fault offset any 0..=len", functions=C_FUN[:3], covers=["C2 source fault surfaces as Err"],
+    props=["C12", "C09"], timeout=600, mem_gb=10, assumptions=C_SRC)
+add("c2p_capture_up_to_size", "input",
+    desc="capture_up_to_size(size) from an arbitrary valid state: afterwards captured >= min(size, len) for EVERY short-read schedule, position untouched, nothing read when enough is captured, EOF only when the source ended",
+    bounds="data <= 3 B, any state, size 0..5", functions=C_FUN[3:4],
+    covers=["C2' prefix grows to the requested size", "C2' prefix request hits end of source"],
+    props=["C09", "C02", "C04"], timeout=900, mem_gb=24, assumptions=C_SRC + C_RTE, replay="none")
+add("c2p_capture_to_end", "input",
+    desc="capture_to_end from an arbitrary valid state: captured == data and EOF set; no read when already at EOF; position untouched",
+    bounds="data <= 3 B, any state", functions=C_FUN[4:5], covers=["C2' capture_to_end pulls the rest"],
+    props=["C09", "C02", "C04"], timeout=900, mem_gb=24, assumptions=C_SRC + C_RTE, replay="none")
+add("c4_capture_up_to_size_fault", "input", desc="capture_up_to_size with a failing source: Err, invariant kept, EOF not claimed",
+    bounds="as above; fault offset any", functions=C_FUN[3:4], covers=["C2' capture_up_to_size propagates a fault"],
+    props=["C12", "C09"], timeout=900, mem_gb=24, assumptions=C_SRC + C_RTE, replay="none")
+add("c4_capture_to_end_fault", "input", desc="capture_to_end with a failing source: Err, EOF not claimed",
+    bounds="as above; fault offset any", functions=C_FUN[4:5], covers=["C2' capture_to_end propagates a fault"],
+    props=["C12", "C09"], timeout=900, mem_gb=24, assumptions=C_SRC + C_RTE, replay="none")
+add("c1_capture_programs", "input",
+    desc="GuardedCaptureReader<Src>: 2 rounds of rewind + 2 partial reads, then rewind_and_take + into_inner; invariant after every operation; every borrow re-reads from byte 0",
+    bounds="data <= 3 B, every read schedule, caller buffers 1..2", functions=C_FUN[:7],
+    covers=["C1 whole source captured by reads", "C1 ownership taken mid-stream"], tier="thorough",
+    props=["C09", "C02", "C04"], timeout=1800, mem_gb=16, assumptions=C_SRC[:1])
+add("c3f_fused_reader", "input",
+    desc="FusedReader<Src>: passes the inner bytes through, drops the inner reader at the first Ok(0) on a non-empty buffer, Ok(0) forever after, zero-length reads do not drop",
+    bounds="data <= 3 B, 4 reads with buffers 0..2", functions=C_FUN[7:8], covers=["C3f inner reader dropped at EOF"],
+    props=["C09", "C02", "C04"], timeout=600, mem_gb=8, assumptions=C_SRC[:1])
+add("c3_handle_programs", "input",
+    desc="the real Handle over Box<dyn Read>: up to 2 borrows (prefix request of any size, or 2 partial reads), then Input::from or Cow::try_from: Ref::Slice/Input::Slice only for a fully captured source and equal to the data; the owned reader replays the complete unaltered stream",
+    bounds="data <= 3 B, every read schedule, <= 2 borrows", functions=C_FUN, covers=["C3 input became a slice", "C3 chained reader after look-ahead"],
+    tier="thorough", props=["C09", "C02"], timeout=3000, mem_gb=24, assumptions=C_SRC[:1] + C_RTE + ["Kani -Z restrict-vtable (virtual calls restricted to type-compatible targets)"],
+    flags=["-Z", "restrict-vtable"], replay="none")
+
+
+# ---------------------------------------------------------------------------------------------
+# Family D - streaming transcoder; Family E - transcode::Value
+# ---------------------------------------------------------------------------------------------
+D_FUN = ["transcode::stream::transcode", "transcode::stream::Visitor (all visit_* methods)", "transcode::stream::Visitor::forward_scalar",
+         "transcode::stream::Visitor::visit_seq", "transcode::stream::Visitor::visit_map", "transcode::stream::Forwarder::serialize",
+         "transcode::stream::Forwarder::serialize_with_seed", "transcode::stream::SeqSeed/KeySeed/ValueSeed::deserialize", "transcode::stream::State"]
+D_ASM = ["mock Deserializer MDe: deserialize_any draws a fresh symbolic event (scalar with symbolic value, Seq/Map with symbolic length hint, or a genuine failure); "
+         "SeqAccess/MapAccess decide non-deterministically to end, to fail between entries, or to hand the seed a child deserializer; total events bounded by a fuel counter",
+         "mock Serializer MSer monitors online: every serialize_* call must match the single event just emitted (type, value, length hint, role element/key/value); "
+         "a symbolic fail_at makes the k-th serializer call position (before an entry, the entry itself, after an entry, end) fail with a genuine error",
+         "serde contract assumed of real (de)serializers: each element/key/value is serialized at most once and the error returned by Serialize::serialize is propagated; "
+         "a deserializer calls exactly one visitor method per deserialize_any and propagates seed errors",
+         "error values are two-variant enums {Genuine, Synthetic}; custom() yields Synthetic, so the transcoder's 'translation failed' filler is distinguishable",
+         "depth induction (paper): a parent observes a child only through (result, error_source, into_error) of a fresh Visitor; the nesting-1 check shows a collection child produces only the three outcomes a scalar child produces"]
+
+add("d1a_every_scalar_kind", "transcode::stream",
+    desc="each of the 17 scalar kinds the transcoder implements (unit, bool, i8..i128, u8..u128, f32, f64, char, str, bytes; copied and owned visitor forms) reaches the serializer through the same-typed method with the identical value (floats bit for bit), exactly once",
+    bounds="1 top-level event, payload any u128 bit pattern, str/bytes <= 2 B", functions=D_FUN[:3],
+    covers=["D1a u128 beyond 64 bits", "D1a NaN payload kept bit for bit", "D1a owned byte buffer"],
+    props=["C01", "C04"], timeout=300, mem_gb=8, assumptions=D_ASM[:1])
+add("d1b_fidelity_structure", "transcode::stream",
+    desc="fidelity without faults: every event (i8, u64, unit, seq, map with hints, end) is forwarded exactly once, in order, with the same role (element/key/value alternate correctly) and length hint; Ok only when everything consumed was forwarded",
+    bounds="<= 6 events, nesting 1, all scalar values", functions=D_FUN, covers=["D Ok with a filled collection"],
+    flags=NOCHK, props=["C01", "C03"], timeout=1200, mem_gb=16, assumptions=D_ASM, replay="stream")
+add("d2_attribution", "transcode::stream",
+    desc="one fault on either side at any position: serializer fault => Error::Ser(genuine serializer error); deserializer fault => Error::De(genuine deserializer error); never the synthetic filler; no serializer call after the fault; a fault is never success",
+    bounds="<= 6 events, nesting 1, serializer fault at any call position (usize), deserializer fault at any event / between entries / before a value",
+    functions=D_FUN, covers=["D serializer fault inside a collection", "D deserializer fault inside a collection"],
+    flags=NOCHK, props=["C11", "C12"], timeout=1500, mem_gb=16, assumptions=D_ASM, replay="stream")
+add("d3_totality", "transcode::stream",
+    desc="as D2 with all default checks on (take_parent/unwrap panics, memory safety, overflow)", bounds="<= 4 events, nesting 1, faults anywhere",
+    functions=D_FUN, covers=["D serializer fault inside a collection"], props=["C04", "C12"], timeout=1500, mem_gb=16, assumptions=D_ASM, replay="stream")
+add("d4_nest2", "transcode::stream", desc="D2 at nesting 2 (best effort)", bounds="<= 4 events, nesting 2", functions=D_FUN,
+    covers=["D4 nesting two reached"], flags=NOCHK, tier="thorough", props=["C11", "C12", "C01"], timeout=3000, mem_gb=40, assumptions=D_ASM, replay="stream")
+
+E_FUN = ["transcode::value::Value::deserialize (Visitor: all visit_* methods, visit_seq, visit_map)", "transcode::value::Value::serialize"]
+add("e1_value_scalars", "transcode::value",
+    desc="Value: every scalar kind/value is stored in the same-typed variant and serialized back through the same-typed method with the identical value; borrowed strings stay borrowed",
+    bounds="1 scalar, payload any u128 bit pattern, str <= 2 B, visitor form copied/owned/borrowed", functions=E_FUN,
+    covers=["E1 borrowed string", "E1 f64"], props=["C01", "C04"], timeout=600, mem_gb=8)
+add("e2_value_structure", "transcode::value",
+    desc="Value round trip of structure: deserializing an event sequence and serializing the Value yields the same events, order and roles; collections declare their exact length",
+    bounds="<= 4 events, nesting 1, honest length hints <= 4", functions=E_FUN,
+    covers=["E2 map with an entry", "E2 seq with two elements"], flags=NOCHK, props=["C01", "C03"], timeout=1200, mem_gb=16,
+    assumptions=D_ASM[:2])
+
+
+# ---------------------------------------------------------------------------------------------
+# Family F - detection driver and dispatch
+# ---------------------------------------------------------------------------------------------
+F_ASM = ["the four <format>::input_matches trials are replaced (#[kani::stub]) by functions that log their identity, check that the borrow they get starts at byte 0, "
+         "and return a symbolic outcome {Ok(false), Ok(true), Err}; what the real trials answer is decided by third-party parsers and is outside the claim"]
+add("f1_detect_order_slice", "detect",
+    desc="detect_format: trials run in the order MessagePack, JSON, YAML, TOML, each on a borrow starting at byte 0, stop at the first non-false outcome; result is that format / None / that error",
+    bounds="all 3^4 outcome combinations; slice handle over 0..2 symbolic bytes", functions=["detect::detect_format", "input::Handle::borrow_mut"],
+    covers=["F1 TOML selected last", "F1 nothing detected", "F1 error from the YAML trial"], props=["C09", "C04"], timeout=300, mem_gb=8, assumptions=F_ASM, replay="none")
+add("f1_detect_order_reader", "detect", desc="F1 on a reader handle (Box<dyn Read>): additionally every trial re-reads byte 0 after the previous trial consumed it",
+    bounds="all outcome combinations; reader handle over 0..2 symbolic bytes", functions=["detect::detect_format", "input::Handle::borrow_mut", "input::CaptureReader::read"],
+    covers=["F1 TOML selected last"], tier="thorough", props=["C09"], timeout=2400, mem_gb=24, assumptions=F_ASM, flags=["-Z", "restrict-vtable"], replay="none")
+# ---------------------------------------------------------------------------------------------
+# Family G - chunker buffer; Family H - libyaml read callback
+# ---------------------------------------------------------------------------------------------
+G_ASM = ["libyaml mark contract: event offsets lie inside what was read through the ChunkReader and never before the last trim "
+         "(start <= offset <= start + captured.len()); libyaml itself cannot be executed symbolically (a concrete 5-byte parse times out, DESIGN.md section 3)"]
+add("g1_chunkreader_step", "yaml::chunker",
+    desc="ChunkReader::{trim_to_offset,take_to_offset} from an arbitrary buffer state: no panic in try_from/drain/split_off; the chunk is exactly the bytes before the offset, the rest stays, start offset updated",
+    bounds="captured <= 5 B (all values), start offset any u64, every offset allowed by the mark contract", functions=["yaml::chunker::ChunkReader::trim_to_offset", "yaml::chunker::ChunkReader::take_to_offset"],
+    covers=["G1 trim in the middle", "G1 take in the middle"], props=["C03", "C04", "C17", "C02"], timeout=300, mem_gb=8, assumptions=G_ASM)
+add("g2_chunkreader_read", "yaml::chunker",
+    desc="ChunkReader::read: exactly the bytes the inner reader reports (any short read) are captured and they equal the bytes handed to the parser; an error captures nothing",
+    bounds="buffer 0..4, reported length any 0..=size, reader error", functions=["yaml::chunker::ChunkReader::read"],
+    covers=["G2 three bytes captured", "G2 reader error"], props=["C03", "C04", "C12", "C17"], timeout=300, mem_gb=8)
+add("g2_chunkreader_overclaim_panics", "yaml::chunker",
+    desc="a reader that claims more bytes than the buffer holds ends in a clean panic (kani::should_panic: a panic and no memory-safety failure)",
+    bounds="buffer 0..4, claim any usize > size", functions=["yaml::chunker::ChunkReader::read"], props=["C17"], timeout=300, mem_gb=8)
+add("h1_read_handler_claims", "yaml::chunker::parser",
+    desc="Parser::read_handler, two consecutive calls with arbitrary (also shrinking) buffer sizes and a reader claiming ANY length or failing: nothing written beyond buffer_size (canary + pointer checks), *size_read <= buffer_size, the reader is never offered more than buffer_size, failure stashes / success clears the error",
+    bounds="destination 8 B, buffer_size 0..8 per call, claim any usize, 2 calls", functions=["yaml::chunker::parser::Parser::read_handler"],
+    covers=["H1 second call copies three bytes", "H1 absurd claim rejected"], props=["C17", "C04", "C12"], timeout=600, mem_gb=10)
+add("h1_read_handler_null_args", "yaml::chunker::parser", desc="null read_state / buffer / size_read are refused without dereference or side effect",
+    bounds="each of the three arguments null", functions=["yaml::chunker::parser::Parser::read_handler"], covers=["H1 null size_read"],
+    props=["C17"], timeout=300, mem_gb=8)
+
+
+# ---------------------------------------------------------------------------------------------
+# Family I (+A5, F2) - per-format glue against dependency models (E2-dep overlay)
+# ---------------------------------------------------------------------------------------------
+DEP = "dep:rmp-serde,serde_json,serde_yaml,toml"
+I_ASM = ["E2-dep overlay: the crates rmp-serde, serde_json, serde_yaml and toml are path-replaced by the behavioural models in /verif/models "
+         "(xt's glue modules are compiled unmodified against them). Shared token language: a document is one non-blank byte, '!' is a syntax error, blanks separate documents; "
+         "model serializers write one token per scalar. What the real parsers/printers accept or print is outside the claim",
+         "rmp-serde model: a deserializer consumes >= 1 byte, then hands one value to the visitor or returns ANY decode::Error variant; "
+         "InvalidMarkerRead/InvalidDataRead carry the source reader's own error or - exactly at end of input - the synthetic UnexpectedEof rmp creates",
+         "harness writer LogW records accepted bytes; optionally accepts a non-deterministic 1..=len bytes per write (short writes) and fails from a symbolic byte offset on"]
+
+add("i1_msgpack_detect_slice", "msgpack", overlay=DEP,
+    desc="msgpack::input_matches on a slice never returns Err (a slice cannot report an I/O error): running out of input / syntax error => Ok(false); the trial only runs for a collection first byte, with set_max_depth(DEPTH_LIMIT)",
+    bounds="input 0..3 symbolic bytes, every model outcome", functions=["msgpack::input_matches", "msgpack::match_input_buffer"],
+    covers=["I1 detected", "I1 candidate skipped"], props=["C09", "C18"], timeout=600, mem_gb=10, assumptions=I_ASM[:2], replay="f2")
+add("a5_split_loop", "msgpack", overlay=DEP,
+    desc="msgpack::transcode slice branch: documents handed to the deserializers are consecutive, non-empty chunks from byte 0 whose sizes are the size calculator's answers; sizer called with DEPTH_LIMIT; every deserializer gets set_max_depth(DEPTH_LIMIT); any failure stops the loop with Err; Ok only when the chunks cover the input",
+    bounds="input 0..3 bytes, sizer answers any 1..=rest or error, output failure at any document",
+    functions=["msgpack::transcode (slice branch)"], covers=["A5 three documents", "A5 size error after one document"],
+    props=["C03", "C02", "C18", "C12"], timeout=900, mem_gb=12, assumptions=I_ASM[:2] + ["next_value_size replaced by its contract (established by A1-A3)"], replay="none")
+add("i4_msgpack_output_framing", "msgpack", overlay=DEP,
+    desc="msgpack::Output: two documents are written back to back in order; with short writes the writer still receives exactly the output; a write fault => Err, accepted bytes are a prefix",
+    bounds="2 one-token documents, short writes of any pattern, writer fault at any byte", functions=["msgpack::Output::transcode_from", "transcode::stream::transcode"],
+    covers=["I4 msgpack short writes"], props=["C03", "C12"], timeout=900, mem_gb=12, assumptions=I_ASM)
+add("i1_json_detect_slice", "json", overlay=DEP,
+    desc="json::input_matches on a slice never returns Err; invalid UTF-8 or a syntax error => Ok(false)", bounds="input 0..3 symbolic bytes",
+    functions=["json::input_matches", "json::match_input_str"], covers=["I1j detected", "I1j invalid utf8 skipped"], props=["C09"], timeout=600, mem_gb=10, assumptions=I_ASM[:1])
+add("i5_json_slice_loop", "json", overlay=DEP,
+    desc="json::transcode slice branch: exactly one transcode_value per document, in input order; a syntax error or an output failure stops the loop and is returned; Ok exactly at a clean end",
+    bounds="input 0..4 symbolic bytes, output failure at any document", functions=["json::transcode (slice branch)", "transcode::value::Value::deserialize"],
+    covers=["I5j three documents", "I5j syntax error after one document"], props=["C03", "C12", "C02"], timeout=1200, mem_gb=14, assumptions=I_ASM[:1])
+add("i4_json_output_framing", "json", overlay=DEP,
+    desc="json::Output: token, newline per document through both entry points; short writes; write fault at any byte (incl. the newline) => Err with a prefix written",
+    bounds="2 one-token documents, any short-write pattern, fault at any byte", functions=["json::Output::transcode_from", "json::Output::transcode_value"],
+    covers=["I4 json short writes", "I4 json newline write fails"], props=["C03", "C12"], timeout=900, mem_gb=12, assumptions=I_ASM)
+add("i2_yaml_routing", "yaml", overlay=DEP,
+    desc="yaml::transcode slice input: exactly one route; the raw-bytes fast path only when Encoding::detect says UTF-8 (otherwise a slice is parsed differently from the same bytes through a reader)",
+    bounds="input 0..4 symbolic bytes", functions=["yaml::transcode", "yaml::encoding::Encoding::detect"],
+    covers=["I2 fast path", "I2 re-encoding route for a valid-UTF-8 slice", "I2 re-encoding route for invalid UTF-8"], props=["C07", "C02"], timeout=900, mem_gb=12,
+    assumptions=I_ASM[:1] + ["yaml::transcode_reader replaced by a stub recording that the re-encoding route was taken (the route itself is family B)"], replay="f3")
+add("i5_yaml_slice_loop", "yaml", overlay=DEP,
+    desc="yaml::transcode fast path: one transcode_from per document in order; a failing document or output stops the loop", bounds="ASCII input 0..3 bytes, output failure at any document",
+    functions=["yaml::transcode (fast path)"], covers=["I5y three documents"], props=["C03", "C12"], timeout=900, mem_gb=12, assumptions=I_ASM[:1])
+add("i4_yaml_output_framing", "yaml", overlay=DEP,
+    desc="yaml::Output: '---' line before every document through both entry points; short writes deliver exactly the output; write fault at any byte => Err",
+    bounds="2 one-token documents, any short-write pattern, fault at any byte", functions=["yaml::Output::transcode_from", "yaml::Output::transcode_value"],
+    covers=["I4 yaml short writes", "I4 yaml marker write fails midway"], props=["C03", "C12"], timeout=1200, mem_gb=14, assumptions=I_ASM)
+add("i3_toml_output", "toml", overlay=DEP,
+    desc="toml::Output over every two-call history: nothing written unless the first document's root is a table without nulls; exactly its rendering is written; the output is marked used before deserialization; any second document/input is refused before anything is pulled from it and nothing more is written",
+    bounds="2 calls, each a document with root in {null,bool,int,seq,map,error}, <= 2 entries, null at any entry, either entry point; writer fault at any byte",
+    functions=["toml::Output::transcode_from", "toml::Output::transcode_value", "toml::Output::ensure_one_use", "toml::Output::output_value"],
+    covers=["I3 empty table writes nothing and succeeds", "I3 table written"], props=["C08", "C11"], timeout=1200, mem_gb=14,
+    assumptions=I_ASM[:1] + ["toml model: Value built from serde events (root kind, entry count), nulls refused as in the real crate, to_string_pretty renders one byte per entry (empty table = empty string) or fails"])
+add("i3_toml_transcode_single_document", "toml", overlay=DEP,
+    desc="toml::transcode: the whole input is one document handed to the output exactly once; invalid UTF-8 or a syntax error translates nothing",
+    bounds="input 0..3 symbolic bytes", functions=["toml::transcode", "Cow::try_from(Handle)"], covers=["I3t three entries"], props=["C08", "C03"], timeout=900, mem_gb=12, assumptions=I_ASM[:1])
+add("f2_translate_dispatch", "", overlay=DEP,
+    desc="Translator::translate: a named format skips detection and runs exactly that format's parser; otherwise detection runs once and its answer is used exactly as if named; None / detection error => Err, nothing parsed, nothing written",
+    bounds="all (named format, detection outcome, target) combinations, 1-byte input", functions=["Translator::translate", "Translator::translate_slice", "Dispatcher"],
+    covers=["F2 unable to detect", "F2 detected YAML dispatched", "F2 named TOML"], props=["C09", "C03"], timeout=1200, mem_gb=14,
+    assumptions=I_ASM[:1] + ["detect_format replaced by a stub with a symbolic answer (its own logic is family F1)"], replay="none")
+add("i4_translator_two_inputs", "", overlay=DEP,
+    desc="one Translator, two inputs in different formats, JSON target: the writer holds the ordered concatenation of the per-document translations; flush reaches the writer",
+    bounds="first input 2 documents (JSON or YAML), second 1 document (JSON or YAML); all token values", functions=["Translator::translate_slice", "Translator::flush", "Dispatcher (Output impl)"],
+    covers=["I4t two inputs translated"], props=["C03"], timeout=1200, mem_gb=14, assumptions=I_ASM[:1])
+
+
+# ---------------------------------------------------------------------------------------------
+# Family J - pipecheck (E2-cli overlay)
+# ---------------------------------------------------------------------------------------------
+J_ASM = ["E2-cli overlay: pipecheck.rs is compiled with the path prefix std:: rewritten to mstd:: (a model crate re-exporting real std items and replacing process::exit) "
+         "and a mock libc that records signal(SIGPIPE, SIG_DFL) and makes raise(SIGPIPE) terminal iff the default action is installed; the kernel delivering the signal is outside the claim"]
+add("j1_pipecheck_methods", "pipecheck", overlay="cli", crate="bin",
+    desc="pipecheck::Writer: for each of write, flush, write_all, write_fmt (literal-only and with arguments), write_vectored and each inner result kind: BrokenPipe => the process ends in the SIGPIPE state (default action installed, not exit()) before the call returns and nothing goes to stderr; every other result is passed through unchanged",
+    bounds="6 call forms x 4 result kinds", functions=["pipecheck::Writer (Write impl)", "pipecheck::check_for_broken_pipe", "pipecheck::exit_for_broken_pipe"],
+    covers=["J terminated by SIGPIPE", "J1 write_fmt passes a full-device error through"], props=["C16"], timeout=600, mem_gb=8, assumptions=J_ASM, replay="none")
+add("j2_write_all_delivers_everything", "pipecheck", overlay="cli", crate="bin",
+    desc="write_all through the wrapper over an inner writer that only implements write() with arbitrary short writes: Ok means every byte was delivered in order; a non-pipe failure comes back as Err; a broken pipe terminates by SIGPIPE",
+    bounds="3 symbolic bytes, every short-write pattern, failure (pipe / full device) at any inner call", functions=["pipecheck::Writer::write_all"],
+    covers=["J2 three one-byte pieces", "J2 full device error returned"], props=["C16", "C15", "C12"], timeout=600, mem_gb=8, assumptions=J_ASM, replay="none")
+
+
+# ---------------------------------------------------------------------------------------------
+# Family K - CLI control flow from MIR (E3: xtmir + z3)
+# ---------------------------------------------------------------------------------------------
+K_ASM = ["E3: the functions are executed symbolically from rustc's MIR text (cargo +nightly rustc --bin xt -- -Zunpretty=mir); locals are terms of an uninterpreted sort, "
+         "references are transparent, library calls are uninterpreted (fresh result) unless listed as interpreted in lib/xtmir.py (Try::branch, FromResidual, Option::{or_else,and_then,map,is_some,unwrap_or}, str/Path equality)",
+         "effect model for main(): Translator::translate_* and flush return a symbolic Result; BufWriter keeps output until an explicit flush (its Drop ignores errors); process::exit flushes nothing; "
+         "writes to StderrLock/StdoutLock are events; lexopt::Parser::{next,value}, ValueExt::parse_with, File::open, Mmap::map return symbolic results",
+         "panic=abort: every terminator in the dumped MIR is `unwind unreachable`, so there are no unwind edges to model"]
+K_FUN = ["main", "main::{closure#0}", "Cli::parse_args", "try_parse_format", "format_is_unsafe_for_terminal", "InputPath::from", "InputPath::open",
+         "InputPath::extension_format (+closures)", "InputPaths::{one,many}"]
+add("e3_k1_name_tables", "", overlay="e3", desc="try_parse_format equals the documented name table for EVERY string (z3 strings, unbounded); extension_format = table(lowercase(utf8(Path::extension))) and None for stdin; InputPath::from maps exactly \"-\" to stdin; format_is_unsafe_for_terminal is true exactly for MessagePack; InputPath::open: stdin unopened, file opened once, mmap success => Mmap, failure => File",
+    bounds="unbounded in the strings (uninterpreted library functions); all paths of the five functions", functions=K_FUN[3:8],
+    props=["C13", "C14"], timeout=600, mem_gb=4, assumptions=K_ASM)
+add("e3_k2_argv_grammar", "", overlay="e3", desc="Cli::parse_args over symbolic token sequences: Err iff lexopt error / repeated -f or -t / invalid format name / unknown option; -V, --version, -h, --help reach exit(0) after writing to stdout only; -f/-t set from/to, to defaults to JSON; positional arguments become inputs",
+    bounds="token sequences of length <= 3 (thorough: 4) over 11 symbolic token classes (unknown short option = any other char, unknown long option = any other string)", functions=K_FUN[2:4],
+    props=["C13"], timeout=900, mem_gb=4, assumptions=K_ASM)
+add("e3_main", "", overlay="e3", desc="every path of main(): K3 exit status 2 <=> invalid command line (usage on stderr, nothing on stdout, nothing translated), exit(1) <=> one 'xt error' message naming the input the failure belongs to, 0 <=> all translated and flushed, MessagePack never to a terminal; K4 source format = -f, else extension, else detection, stdin at most once, mmap => slice; K5 every finished input is flushed explicitly before anything else can fail; K6 translator writes through pipecheck::Writer(BufWriter(stdout.lock()))",
+    bounds="<= 3 inputs (thorough: 4); all outcomes of parse_args / open / mmap / translate / flush / is_terminal", functions=K_FUN,
+    props=["C13", "C14", "C15", "C16"], timeout=1800, mem_gb=6, assumptions=K_ASM)
+
+
+# ---------------------------------------------------------------------------------------------
 # property -> harness selection
 # ---------------------------------------------------------------------------------------------
 
